@@ -442,7 +442,7 @@ func (ck *checker) checkValid(in *validInput) []byte {
 	ck.checkStepwise(in, out, wit)
 
 	// 8. read / marshal round trip of the (current version) result
-	ck.checkRoundTrip(in.Label, out, flow)
+	ck.checkRoundTrip(in.Label, out, flow, in.R != nil)
 
 	// 9. model based clauses
 	if in.R != nil {
@@ -535,7 +535,7 @@ func (ck *checker) checkStepwise(in *validInput, oneGo []byte, wit func(map[stri
 }
 
 // checkRoundTrip: read(marshal(read(d))) == read(d) for a current-version definition d that loaded as flow
-func (ck *checker) checkRoundTrip(label string, d []byte, flow flows.Flow) {
+func (ck *checker) checkRoundTrip(label string, d []byte, flow flows.Flow, strict bool) {
 	res := ck.res
 	m1, err, pi := marshalFlow(flow)
 	if pi != nil {
@@ -562,6 +562,190 @@ func (ck *checker) checkRoundTrip(label string, d []byte, flow flows.Flow) {
 	if err != nil || !bytes.Equal(m1, m2) {
 		ck.violate("roundtrip|not-equal|"+firstDiffShape(m1, m2), "read(marshal(read(d))) differs from read(d)", map[string]any{"input": label, "definition": string(d), "first": string(m1), "second": string(m2)})
 	}
+	// the two flows compared through the API (marshalling cannot show what marshalling itself loses)
+	var a, b []string
+	if pi := guard("read", "flow accessors", func() { a, b = describeFlow(flow), describeFlow(f2) }); pi != nil {
+		res.Count("panics", 1)
+		ck.violate(pi.signature(), "inspecting a loaded flow panicked: "+clip(fmt.Sprint(pi.Rec), 200), map[string]any{"input": label, "definition": string(d), "stack": fw.TrimStack(pi.Stack)})
+		return
+	}
+	res.Count("clause.roundtrip.api_compared", 1)
+	for i := 0; i < len(a) || i < len(b); i++ {
+		var x, y string
+		if i < len(a) {
+			x = a[i]
+		}
+		if i < len(b) {
+			y = b[i]
+		}
+		if x != y {
+			what := x
+			if what == "" {
+				what = y
+			}
+			if j := strings.Index(what, "="); j > 0 {
+				what = what[:j]
+			}
+			ck.violate("roundtrip|flow-differs|"+uuidRe.ReplaceAllString(numRe.ReplaceAllString(what, "N"), "U"), "the flow read back from its own marshalled form differs from the flow first read",
+				map[string]any{"input": label, "definition": string(d), "marshalled": string(m1), "first": x, "second": y})
+			break
+		}
+	}
+	if strict {
+		ck.checkSubset(label, d, m1)
+	}
+}
+
+// describeFlow lists what the public API says about a flow, one fact per line
+func describeFlow(f flows.Flow) []string {
+	out := []string{
+		"uuid=" + string(f.UUID()), "name=" + f.Name(), "language=" + string(f.Language()), "type=" + string(f.Type()),
+		fmt.Sprintf("revision=%d", f.Revision()), fmt.Sprintf("expire=%d", f.ExpireAfterMinutes()), "ui=" + canonicalJSON(f.UI()),
+	}
+	for i, n := range f.Nodes() {
+		out = append(out, fmt.Sprintf("node[%d]=%s", i, n.UUID()))
+		for j, a := range n.Actions() {
+			out = append(out, fmt.Sprintf("node.action[%d][%d]=%s %s", i, j, a.Type(), a.UUID()))
+		}
+		if n.Router() != nil {
+			w := ""
+			if n.Router().Wait() != nil {
+				w = n.Router().Wait().Type()
+			}
+			out = append(out, fmt.Sprintf("node.router[%d]=%s wait=%s result=%s", i, n.Router().Type(), w, n.Router().ResultName()))
+			for j, c := range n.Router().Categories() {
+				out = append(out, fmt.Sprintf("node.router.category[%d][%d]=%s %q -> %s", i, j, c.UUID(), c.Name(), c.ExitUUID()))
+			}
+		}
+		for j, e := range n.Exits() {
+			out = append(out, fmt.Sprintf("node.exit[%d][%d]=%s -> %s", i, j, e.UUID(), e.DestinationUUID()))
+		}
+	}
+	langs := []string{}
+	for _, l := range f.Localization().Languages() {
+		langs = append(langs, string(l))
+	}
+	sort.Strings(langs)
+	out = append(out, "localization.languages="+strings.Join(langs, ","))
+	// as sorted multisets: the enumeration order of header maps / translations is not fixed (C08's subject)
+	ts := append([]string{}, f.ExtractTemplates()...)
+	sort.Strings(ts)
+	for i, t := range ts {
+		out = append(out, fmt.Sprintf("template[%d]=%s", i, t))
+	}
+	loc := append([]string{}, f.ExtractLocalizables()...)
+	sort.Strings(loc)
+	for i, t := range loc {
+		out = append(out, fmt.Sprintf("localizable[%d]=%s", i, t))
+	}
+	return out
+}
+
+// canonicalJSON re-serialises raw JSON with sorted keys (escaping differences are not differences)
+func canonicalJSON(raw []byte) string {
+	if len(raw) == 0 {
+		return ""
+	}
+	v, err := decodeGeneric(raw)
+	if err != nil {
+		return string(raw)
+	}
+	return string(mustJSON(v))
+}
+
+func emptyLeaf(v any) bool {
+	switch t := v.(type) {
+	case nil:
+		return true
+	case string:
+		return t == ""
+	case bool:
+		return !t
+	case json.Number:
+		f, err := t.Float64()
+		return err == nil && f == 0
+	case []any:
+		return len(t) == 0
+	case map[string]any:
+		return len(t) == 0
+	}
+	return false
+}
+
+// firstMissing finds the first non-empty leaf of a that b does not have (same path, same value)
+func firstMissing(a, b any, path []any) ([]any, bool) {
+	if emptyLeaf(a) {
+		return nil, false
+	}
+	switch at := a.(type) {
+	case map[string]any:
+		bt, _ := b.(map[string]any)
+		for _, k := range sortedKeys(at) {
+			var bv any
+			if bt != nil {
+				bv = bt[k]
+			}
+			if p, miss := firstMissing(at[k], bv, appendPath(path, k)); miss {
+				return p, true
+			}
+		}
+		return nil, false
+	case []any:
+		bt, _ := b.([]any)
+		for i, e := range at {
+			var bv any
+			if i < len(bt) {
+				bv = bt[i]
+			}
+			if p, miss := firstMissing(e, bv, appendPath(path, i)); miss {
+				return p, true
+			}
+		}
+		return nil, false
+	case json.Number:
+		bn, ok := b.(json.Number)
+		if ok {
+			x, _ := at.Float64()
+			y, _ := bn.Float64()
+			if x == y {
+				return nil, false
+			}
+		}
+		return path, true
+	}
+	if fmt.Sprint(a) != fmt.Sprint(b) || jsonType(a) != jsonType(b) {
+		return path, true
+	}
+	return nil, false
+}
+
+// checkSubset: for a generated definition (which only has members goflow knows), everything non-empty in the
+// definition must still be in its marshalled form
+func (ck *checker) checkSubset(label string, d, m1 []byte) {
+	da, _ := decodeGeneric(d)
+	db, _ := decodeGeneric(m1)
+	if dm, ok := da.(map[string]any); ok {
+		cp := make(map[string]any, len(dm))
+		for k, v := range dm {
+			cp[k] = v
+		}
+		delete(cp, "spec_version") // "13.6" and "13.6.0" are the same version
+		da = cp
+	}
+	ck.res.Count("clause.roundtrip.members_kept", 1)
+	if p, miss := firstMissing(da, db, nil); miss {
+		got, _ := getPath(db, p)
+		want, _ := getPath(da, p)
+		ck.violate("roundtrip|member-lost|"+templatePositionOrPath(p), "a member of a current-version definition is not in the marshalled form of the flow read from it",
+			map[string]any{"input": label, "path": pathString(p), "expected": want, "observed": got, "definition": string(d), "marshalled": string(m1)})
+	}
+}
+
+func templatePositionOrPath(p []any) string {
+	if len(p) >= 2 && p[0] == "nodes" {
+		return templatePosition(p)
+	}
+	return pathShape(p)
 }
 
 // firstDiffShape gives the (index / uuid free) path of the first difference between two JSON documents
@@ -703,7 +887,7 @@ func (ck *checker) compareTemplate(in *validInput, src string, srcMinor int, got
 			cause = why
 			sig = "valid|template-value-differs|" + cls
 			if cls == "rename" {
-				sig += "|" + where + "|" + templatePosition(path)
+				sig += "|" + where
 			}
 		}
 		ck.violate(sig, "a template evaluates differently after migration: "+cause,
